@@ -225,6 +225,10 @@ def check_frag(case):
                 cls.append("nt:foreign-command-12-chars" if len(m["cmd"]) == 12 else "nt:foreign-command")
                 continue
             cmd_arg = m["cmd"] if m.get("str") else m["cmd"].encode("ascii")
+            # history: the same message has just been serialised for another network (another start-bytes argument)
+            other = ref.MAGIC[[n_ for n_ in sorted(ref.MAGIC) if n_ != net][(i + len(payload)) % (len(ref.MAGIC) - 1)]]
+            attempt(p2p.msg_ser, other, cmd_arg, payload)
+            cls.append("nt:after-same-message-under-other-magic")
             got = attempt(p2p.msg_ser, magic, cmd_arg, payload)
             good = isinstance(got, (bytes, bytearray)) and bytes(got) == want
             f.expect(good, "ser/ne-reference-layout", f"message {i} {m['cmd']} {len(payload)}B: got {short(got, 40)} want {short(want, 40)}")
